@@ -13,6 +13,7 @@ RULE = ("seeded random programs with all features on (frame forests, go/timeout/
         "put/inc/copy/set, plain and conditional auxiliaries, done needs, bids, slaves+fiats, periods, orders) plus a "
         "bounded-exhaustive tiny grammar (1 framer, 3 frames, 4 nestings, per frame none or one go with 3 targets x 3 conditions); programs with singly used auxiliary framers also run as clones of moot framers against the same reference run; twin clones of one moot framer with update / change conditions against the marker-rule model; "
         "distinct = distinct program text; non-trivial = the program took >= 2 transitions")
+RULE = __import__("vf.core", fromlist=["rule_add"]).rule_add(RULE, 'also the frames declared in another order; programs whose framers have periods and receive bids that carry a period (also 0)')
 META = {"engine": "A floscript", "technique": "differential runtime monitoring against an independent executable reference interpreter",
         "level_text": "Every recorder event, per-tick framer status / active outline / done flag and watched store value of each generated "
                       "program is compared with an AST-level interpreter of the documented semantics; the first divergence is the witness.",
